@@ -83,6 +83,8 @@ class Forward:
             if "basic_string" in t and len(args) >= 1:
                 a0 = sc(args[0])
                 if a0.get("t", "").replace("const ", "").strip() in ("char *", "char *const"):
+                    if len(args) > 1:
+                        raise Bad("std::string built from part of the C string: %s" % norm.render(P, e)[:80], e)
                     ls = self.leaves(a0, depth + 1)
                     return [Leaf(l.key, "string(" + l.form + ")", l.node) for l in ls]
                 if "basic_string" in a0.get("t", ""):
